@@ -638,4 +638,22 @@ example : ((([({ routes := [("OPTIONS", "/a", some 1), ("GET", "/a", some 2)] } 
     ((([({ routes := [("OPTIONS", "/a", some 1), ("GET", "/a", some 2)] } : Group)].foldl Server.addRoutes
     (mustNewServer [.cors])).start.1.serveHTTP "GET" "/a") = .router (.route 2 [])) := by decide +kernel
 
+/-! ### the status of a not-found answer of rest.Server -/
+
+/-- **404 when no route matches, through the engine's wrapper**: whatever `WithNotFoundHandler` handler is installed,
+the response status is 404 unless the handler itself wrote a status (then that one) — for every handler that returns;
+a handler that panics or calls `runtime.Goexit` before writing leaves net/http's default. -/
+theorem engine_notFound_status (own : Option Nat) (returns : Bool) :
+    (own = none → returns = true → engineNotFoundStatus own returns = 404) ∧
+    (∀ c, own = some c → engineNotFoundStatus own returns = c) ∧
+    (own = none → returns = false → engineNotFoundStatus own returns = 200) := by
+  refine ⟨?_, ?_, ?_⟩
+  · intro h1 h2; subst h1 h2; rfl
+  · intro c h; subst h; rfl
+  · intro h1 h2; subst h1 h2; rfl
+
+/-- `HeaderOnceResponseWriter`: only the first `WriteHeader` reaches the client. -/
+theorem headerOnce_first_wins (c1 c2 : Nat) :
+    (headerOnceWrite false c1).2 = some c1 ∧ (headerOnceWrite (headerOnceWrite false c1).1 c2).2 = none := ⟨rfl, rfl⟩
+
 end GoZero.C09
